@@ -6,7 +6,23 @@
    All statements are for every model (object graph given by arbitrary functions), every
    expression tree, every start object, name list, target type, fuel, and for both forms of
    the visited key (kf = true: the repaired key with first_element; kf = false: the old key). *)
-From TxV Require Import Core.Base Model.RrelSyntax Model.Rrel Proofs.RrelProofs.
+From TxV Require Import Core.Base Gen.SrcRrel Model.RrelSyntax Model.Rrel Proofs.RrelProofs.
+
+(* ---------------------------------------------------------------- tie to the source
+   Gen/SrcRrel.v is regenerated from textx/scoping/rrel.py on every run (tools/translate/rrel_tr.py,
+   fail closed; it also fingerprints every transcribed method).  The facts it reads - visited key
+   with first_element, `lst[0]`, start_locally before start_at_root, proxy path completed by the
+   target, start_locally/start_at_root of the leaf nodes, consume/fixed flags of `a`, `~a`, `'s'~a`
+   - equal what the model's own functions do. *)
+Theorem C11_source_facts : src_facts = model_facts.
+Proof. exact src_facts_ok. Qed.
+Print Assumptions C11_source_facts.
+
+(* the witness of the repaired defect, for the key form the source has now *)
+Example C11_source_key_finds :
+  find 20 sample (key_has_first src_facts) e_star 1 [[112]%N] (Some s_Mem) false = FObj 2.
+Proof. vm_compute. reflexivity. Qed.
+Print Assumptions C11_source_key_finds.
 
 (* ---------------------------------------------------------------- soundness
    Unconditional: whatever find returns as the resolved object is reachable by one
@@ -61,15 +77,40 @@ Proof. exact find_later_alt. Qed.
 Print Assumptions C11_later_alternative.
 
 (* ---------------------------------------------------------------- completeness
-   Full statement (not proved):
+   Full statement (not proved as one theorem):
      forall F m sq o names T, siblings_unique m -> find F m true sq o names T false <> FOof ->
        (exists t tr, justified m sq o names T t tr) -> find F m true sq o names T false <> FNone.
-   Proved part: the same for every search that was never cut short by the visited set or by
-   prevent_doubles (find_hit = false) — any expression (nested `*` included), any model, any
-   fuel, both key forms.  "Not found" is then a proof that no justified result exists; out
-   of fuel and Postponed are different answers and need no hypothesis.  Missing for the full
-   statement: the argument that a cut at an already visited (object, node, remaining length,
-   first) loses nothing (closure of the final visited set under the successor relation). *)
+   Proved, for every model, expression (any nesting of `*`), start, names, type, fuel:
+   (1) C11_complete_certified: if the set of visited keys a search leaves behind passes the
+       decidable closure check [closure_ok] (every visited key has all its successors handled: the
+       next guard's key is visited too, or the acceptance test fails), then no justified result
+       exists - so a cut at an already visited key or by prevent_doubles has lost nothing.  The
+       check evaluates [find_certified] on every "not found" answer of every generated case (it has
+       to be true); C11_closed_set_complete is the same for an arbitrary set of keys.
+   (2) C11_complete_partial: the same conclusion without any certificate for searches that were
+       never cut (find_hit = false).
+   Missing for the single theorem: that every failed search of the model leaves a closed set
+   ([fowp .. = (RNone, s) -> closure_ok .. (vis s) .. = true]); this is validated per case, not proved. *)
+Theorem C11_complete_certified : forall F m kf sq o names T,
+  siblings_unique m -> find_certified F m kf sq o names T = true ->
+  forall t tr, ~ justified m sq o names T t tr.
+Proof. exact find_certified_complete. Qed.
+Print Assumptions C11_complete_certified.
+
+Theorem C11_closed_set_complete : forall F m sq o names T V,
+  siblings_unique m -> closure_ok F m names V sq o T = true ->
+  forall t tr, ~ justified m sq o names T t tr.
+Proof. exact closure_complete. Qed.
+Print Assumptions C11_closed_set_complete.
+
+(* non-vacuity: the failed search of C11_sample_none is certified; the failed search with the old
+   visited key (which misses a justified result, C11_old_key_incomplete) is not *)
+Example C11_sample_certified :
+  find_certified 20 sample true e_star 1 [[122]%N] None = true /\
+  find_certified 20 sample false e_star 1 [[112]%N] (Some s_Mem) = false.
+Proof. vm_compute. split; reflexivity. Qed.
+Print Assumptions C11_sample_certified.
+
 Theorem C11_complete_partial : forall F m kf sq o names T px,
   siblings_unique m ->
   find F m kf sq o names T px = FNone -> find_hit F m kf sq o names T = false ->
